@@ -110,16 +110,18 @@ def render_passert(cs, prog):
             return "" if insrc else "zsrc"
         return "z" + p.lower()
     r = cw.Renderer(qual)
-    tps = prog["decls"][prog["target"]]["tps"]
-    tpdecl = cw.tparams_text(r, tps)
-    tpuse = "[" + ", ".join(cw.conc_ident(tp["n"]) for tp in tps) + "]" if tps else ""
-    n = cs.target
-    src = ("" if insrc else "zsrc.") + n + tpuse
-    body = ["type zzSrc_%s%s interface{ %s } // A:harness" % (n, tpdecl, src),
-            "func zzM1_%s%s(a %s) Re_%s%s { return a } // A:assign" % (n, tpdecl, src, n, tpuse),
-            "func zzM2_%s%s(a Re_%s%s) %s { return a } // A:assign" % (n, tpdecl, n, tpuse, src),
-            "func zzW_%s%s(a %s) %s { return &Fw_%s%s{Inner: a} } // A:wrapper" % (n, tpdecl, src, src, n, tpuse),
-            "func zzC1_%s%s() { var _ Re_%s%s } // A:constraint" % (n, tpdecl, n, tpuse)]
+    body = []
+    for name in (prog.get("targets") or [prog["target"]]):      # every interface rendered into this file
+        tps = prog["decls"][name]["tps"]
+        tpdecl = cw.tparams_text(r, tps)
+        tpuse = "[" + ", ".join(cw.conc_ident(tp["n"]) for tp in tps) + "]" if tps else ""
+        n = cw.conc_ident(name)
+        src = ("" if insrc else "zsrc.") + n + tpuse
+        body += ["type zzSrc_%s%s interface{ %s } // A:harness" % (n, tpdecl, src),
+                 "func zzM1_%s%s(a %s) Re_%s%s { return a } // A:assign" % (n, tpdecl, src, n, tpuse),
+                 "func zzM2_%s%s(a Re_%s%s) %s { return a } // A:assign" % (n, tpdecl, n, tpuse, src),
+                 "func zzW_%s%s(a %s) %s { return &Fw_%s%s{Inner: a} } // A:wrapper" % (n, tpdecl, src, src, n, tpuse),
+                 "func zzC1_%s%s() { var _ Re_%s%s } // A:constraint" % (n, tpdecl, n, tpuse)]
     imps = []
     if not insrc:
         imps.append("\tzsrc \"%s\"" % cs.pkgpath)
@@ -164,7 +166,7 @@ def section_of(world, relfile, line):
 
 
 def pick_programs(ctx, sp, tier):
-    pids = cw.select_programs(ctx, sp, tier, scale=0.7 if tier == "quick" else 1.0, exclude_fams=("multi",))
+    pids = cw.select_programs(ctx, sp, tier, scale=0.7 if tier == "quick" else 1.0)
     return pids
 
 
@@ -260,10 +262,13 @@ def run(ctx):
         d = dumps.get(cs.cid)
         if d is None:
             continue
-        dm = sp.progs[cs.pid]["dm"]
-        exp_by = {cw.conc_ident(m["name"]): m for m in dm["methods"]}
+        dms = {cw.conc_ident(n_): v for n_, v in sp.progs[cs.pid]["dms"].items()}
         events.append({"ev": "reset", "case": cs.cid})
         for x in d["ifaces"]:
+            dm = dms.get(x["name"])                 # the expectation of THIS interface (several may share the file)
+            if dm is None:
+                raise MachineryError("probe rendered an interface the program does not declare: %s in %s" % (x["name"], cs.pid))
+            exp_by = {cw.conc_ident(m["name"]): m for m in dm["methods"]}
             events.append({"ev": "begin", "case": cs.cid, "iface": x["name"], "ntparams": len(x["tparams"]), "exp_ntparams": len(dm["tparams"]),
                            "exp_methods": sorted(exp_by)})
             for m in x["methods"]:
